@@ -358,7 +358,7 @@ func runScenario(sc scenario, stallSite string, stallIdx int) schedResult {
 		if sc.noTimeout {
 			d.SetTimeout(0)
 		}
-		srv := ocppj.NewServer(fs, d, &gServerState{ServerState: ocppj.NewServerState(nil), l: l}, core.Profile)
+		srv := ocppj.NewServer(fs, d, &gServerState{ServerState: ocppj.NewServerState(&sync.RWMutex{}), l: l}, core.Profile)
 		srv.SetDialect(ocpp.V16)
 		fs.onWrite = func(c string, data []byte) {
 			if fr, err := parseFrame(data); err == nil && fr.Type == 2 {
